@@ -116,6 +116,21 @@ def analyse_method(repo, res, prop, cname, fi, directed, writer_names, trusted=(
                         loop_unbalanced = (lid, d2)
             except Unsupported as e:
                 raise AnalysisError(str(e))
+            if not d and loop_unbalanced is not None:
+                # the iteration that raises is balanced so far, but every completed iteration of the enclosing loop
+                # leaves a difference that only code after the loop settles - code an exception here skips
+                lid, d2 = loop_unbalanced
+                a, b, sign, w, fa, fb = d2[0]
+                res.inst("R-EXC", f"{cname}.{fi.name}:{getattr(rp.stmt, 'lineno', 0)} {rp.text[:70]} [{vdesc}]", False)
+                key = ("R-EXC", "iter", getattr(rp.stmt, "lineno", 0), a, sign)
+                if key not in seen:
+                    seen.add(key)
+                    res.add(mk_finding(
+                        prop, "R-EXC", fi, rp.stmt,
+                        f"{cname}.{fi.name}: if `{rp.text.replace('soft:', '')}` raises in a later iteration, the iterations already completed have left the tables inconsistent (their {'gains' if sign == '+' else 'losses'} are only settled after the loop) [{vdesc}]: per iteration {a}{sign} {show(fa)}  vs  {b}{sign} {show(fb)}",
+                        role=f"{cname}:{a}{sign}:iter",
+                    ))
+                continue
             ok = not d
             res.inst("R-EXC", f"{cname}.{fi.name}:{getattr(rp.stmt, 'lineno', 0)} {rp.text[:70]} [{vdesc}]", ok)
             if d:
